@@ -43,7 +43,7 @@ func init() {
 			if tier == core.Thorough {
 				return 64
 			}
-			return 16
+			return 12
 		},
 		Run:            run,
 		MinNontrivial:  func(t core.Tier) int { return 100 },
@@ -283,7 +283,11 @@ func run(c *core.Case) {
 	for _, s := range sites {
 		c.Seen("site", s)
 	}
+	only := os.Getenv("VERIF_C03_ONLY") // debugging aid for replays: "site#k"
 	for pi, pt := range points {
+		if only != "" && only != fmt.Sprintf("%s#%d", pt.site, pt.k) {
+			continue
+		}
 		dir := fmt.Sprintf("%s/crash-%d", scratch, pi)
 		ackPath := fmt.Sprintf("%s/crash-%d.ack", scratch, pi)
 		killed, exit, stderr := runChild(c, dir, progIdx, ackPath, pt.site, pt.k, hitsPath+".x")
@@ -405,16 +409,38 @@ func checkAfterCrash(c *core.Case, p program, dir, ackPath string, pt crashPoint
 			c.Violatef("append-after-recovery-failed", "%s\n%v", what, err)
 			return
 		}
+		c.Logf("before second restart:\n%s\n%s", e.Diagnose(), tsdbhist.DiskSummary(dir))
 		if err := e.Apply(tsdbhist.Op{Kind: "restart"}); err != nil {
 			c.Violatef("restart-after-recovery-failed", "%s\n%v", what, err)
 			return
+		}
+		if c.Verbose {
+			hcs, herr := headdisk.ScanHeadChunks(dir, nil)
+			c.Logf("after second restart: head chunks on disk: %+v err=%v\n%s", hcs, herr, tsdbhist.DiskSummary(dir))
 		}
 		if diff := e.Check(nil); diff != "" {
 			kind := "after-recovery-restart:" + classify(diff)
 			// Known-finding predicate (the C22 defect): after the crash recovery a series ref was handed
 			// out a second time, visible on disk as one ref carrying two label sets in the WAL's
 			// series records; data stored under the old owner is then lost or mis-attributed.
-			if recs, _, err := headdisk.Scan(dir); err == nil {
+			// Known-finding predicate: the missing sample still sits in a head chunk file, but under a
+			// series ref that no live series has (the series was re-numbered by a WAL-replay restart
+			// - first series record of a re-created series wins - and a later snapshot restart skips
+			// the WAL records that would map the old ref).
+			if k, t, ok := parseMissing(diff); ok && e.DB != nil {
+				_ = k
+				live := e.DB.Head().VerifSeriesRefs()
+				if hcs, err := headdisk.ScanHeadChunks(dir, nil); err == nil {
+					for _, hc := range hcs {
+						if _, isLive := live[uint64(hc.Ref)]; !isLive && hc.MinT <= t && t <= hc.MaxT {
+							kind = "acknowledged-sample-orphaned-in-head-chunk-under-stale-series-ref"
+							diff += fmt.Sprintf(" [head chunk file holds a chunk [%d,%d] under series ref %d, which no live series has]", hc.MinT, hc.MaxT, hc.Ref)
+							break
+						}
+					}
+				}
+			}
+			if recs, _, err := headdisk.Scan(dir); err == nil && strings.HasPrefix(kind, "after-recovery-restart:") {
 				if cl := headdisk.RefClashes(recs); len(cl) > 0 && strings.Contains(diff, "missing sample") {
 					kind = "acknowledged-sample-lost-after-series-ref-reissue"
 					diff += fmt.Sprintf(" [WAL series records give one ref to several label sets: %v]", cl)
@@ -477,4 +503,19 @@ func classify(diff string) string {
 		return "duplicate-or-disorder"
 	}
 	return "query-error"
+}
+
+// parseMissing extracts series and timestamp from a "missing sample" difference text.
+func parseMissing(diff string) (string, int64, bool) {
+	i := strings.Index(diff, "series ")
+	j := strings.Index(diff, ": missing sample t=")
+	if i < 0 || j < 0 || j < i {
+		return "", 0, false
+	}
+	k := diff[i+len("series ") : j]
+	var t int64
+	if _, err := fmt.Sscanf(diff[j+len(": missing sample t="):], "%d", &t); err != nil {
+		return "", 0, false
+	}
+	return k, t, true
 }
